@@ -52,9 +52,19 @@ ERRNO_TOK = {
     errno.EINVAL: "einval", errno.EWOULDBLOCK: "ewouldblock", errno.ECONNABORTED: "econnaborted",
 }
 FAULT_ERRNOS = [errno.ECONNRESET, errno.EPIPE, errno.ENOTCONN, errno.EBADF, errno.EINVAL, errno.EIO]
+# every errno the platform knows: the sweep of the fault search (one run per errno per kind of call), so that an errno
+# that changes class in the source (a "disconnect" that was an error, or the reverse) yields a concrete disagreement
+ALL_ERRNOS = sorted(errno.errorcode)
+# The model's errno type has one constructor per errno the code names plus EOTHER.  Which class an errno belongs to is
+# FIXED HERE, from the model (Model/ChanFault.v [disconnected], [accept_benign]) -- never read from the source:
+# ESHUTDOWN is a member of wasyncore._DISCONNECTED without a constructor of its own, it travels as EPIPE (same class,
+# same behaviour at every call site); everything else that is not named is EOTHER.
+MODEL_DISCONNECTED = {errno.ECONNRESET, errno.EPIPE, errno.ENOTCONN, errno.EBADF, errno.ECONNABORTED, errno.ESHUTDOWN}
 
 
 def errtok(e):
+    if e == errno.ESHUTDOWN:
+        return "epipe"
     return ERRNO_TOK.get(e, "eother")
 
 
@@ -924,12 +934,24 @@ class LSock(FSock):
         return FSock.getsockopt(self, level, opt, buflen)
 
 
+# what accept() returns as the peer address, per listener family
+FAMILIES = {
+    "inet": lambda fd: ("127.0.0.1", 40000 + fd),
+    "inet6": lambda fd: ("::1", 40000 + fd, 0, 0),
+    "unix-empty": lambda fd: "",
+    "unix-none": lambda fd: None,
+    "unix-path": lambda fd: "/run/peer-%d.sock" % fd,
+    "unix-bytes": lambda fd: b"\x00abstract-%d" % fd,
+}
+
+
 class ListenSock:
-    def __init__(self, world, fd=100):
+    def __init__(self, world, fd=100, family="inet"):
         self.w = world
         self.fd = fd
         self.backlog = []
         self.closed = False
+        self.family = family
 
     def fileno(self):
         return self.fd
@@ -950,18 +972,24 @@ class ListenSock:
         pass
 
     def getsockname(self):
-        return ("127.0.0.1", 8080)
+        if self.family.startswith("unix"):
+            return "/run/listener.sock"
+        return ("::1", 8080, 0, 0) if self.family == "inet6" else ("127.0.0.1", 8080)
 
     def accept(self):
         if not self.backlog:
             self.w.sched.note("accept_ans", "ax:ewouldblock")
             raise OSError(errno.EWOULDBLOCK, "would block")
         c = self.backlog.pop(0)
+        if c == "typeerror":
+            # socket.accept() raising TypeError: dispatcher.accept returns None -- for the model the same as EWOULDBLOCK
+            self.w.sched.note("accept_ans", "ax:ewouldblock")
+            raise TypeError("injected accept")
         if isinstance(c, int):
             self.w.sched.note("accept_ans", "ax:" + errtok(c))
             raise OSError(c, "injected accept")
         self.w.sched.note("accept_ans", "ac:" + FDS[c.fd])
-        return c, ("127.0.0.1", 40000 + c.fd)
+        return c, FAMILIES[self.family](c.fd)
 
     def close(self):
         self.closed = True
@@ -985,11 +1013,19 @@ class ListenerWorld(FaultWorld):
     """steps: ("connect", setup_faults | None) | ("accept_err", errno) | ("send", fd, bytes) | ("close", fd)
              | ("oob", fd) | ("plan", fd, send_plan, recv_faults, soerr_plan) | ("turn",) | ("serve", fd)"""
 
-    def __init__(self, app, steps, adj_kw=None, sndbuf=4096):
+    def __init__(self, app, steps, adj_kw=None, sndbuf=4096, family="inet", log_socket_errors=True, logging_on=False):
+        """family: a key of FAMILIES (the listener is a TcpWSGIServer for inet / inet6, a UnixWSGIServer otherwise);
+        logging_on: run with logging enabled and a handler on the "waitress" logger that formats every record
+        (the module disables logging otherwise)"""
         self.app_fn = app
         self.steps = list(steps)
         self.sched = NullSched()
         self.adj_kw = dict(adj_kw or {})
+        self.adj_kw["log_socket_errors"] = bool(log_socket_errors)
+        self.family = family
+        self.logging_on = bool(logging_on)
+        self.log_records = 0
+        self.log_format_errors = 0
         self.sndbuf = sndbuf
         self.socks = {}
         self.channels = {}
@@ -1044,7 +1080,17 @@ class ListenerWorld(FaultWorld):
         note = self.sched.note
         self.ft = threading
         cls = self._make_channel_class()
-        self.lsock = ListenSock(self)
+        self.lsock = ListenSock(self, family=self.family)
+        unix = self.family.startswith("unix")
+        base_server = wserver.UnixWSGIServer if unix else wserver.TcpWSGIServer
+
+        class FormattingHandler(logging.Handler):
+            def emit(self_, record):
+                world.log_records += 1
+                try:
+                    self_.format(record)
+                except Exception:       # what logging.Handler.handleError does, minus the print
+                    world.log_format_errors += 1
 
         class TChan(cls):
             def add_channel(self, map=None):
@@ -1054,7 +1100,7 @@ class ListenerWorld(FaultWorld):
                 note("chan_added", fd)
                 return r
 
-        class TServer(wserver.TcpWSGIServer):
+        class TServer(base_server):
             channel_class = TChan
 
             def set_socket_options(self, conn):
@@ -1065,7 +1111,7 @@ class ListenerWorld(FaultWorld):
                 lst_was = (self._map.get(100) is self, not world.lsock.closed)
                 if trg_was[0]:
                     pass
-                r = wserver.TcpWSGIServer.close(self)
+                r = base_server.close(self)
                 if trg_was[0]:
                     note("trigger_closed", trg_was[1])
                 note("listener_closed", lst_was)
@@ -1103,9 +1149,22 @@ class ListenerWorld(FaultWorld):
         self.adj = adj
         self.dispatcher = _Queue()
         toks, exps = [], []
+        wlog = logging.getLogger("waitress")
+        handler = FormattingHandler()
+        saved_log = (logging.root.manager.disable, wlog.propagate, wlog.level)
+        if self.logging_on:
+            logging.disable(logging.NOTSET)
+            wlog.addHandler(handler)
+            wlog.propagate = False
+            wlog.setLevel(logging.DEBUG)
         with patched(wasyncore, select=Sel()):
-            self.server = TServer(self._app, map=self.map, _sock=self.lsock, dispatcher=self.dispatcher, adj=adj,
-                                  sockinfo=(_socket.AF_INET, _socket.SOCK_STREAM, None, ("127.0.0.1", 8080)))
+            if unix:
+                self.server = TServer(self._app, map=self.map, _sock=self.lsock, dispatcher=self.dispatcher, adj=adj,
+                                      bind_socket=False)
+            else:
+                fam = _socket.AF_INET6 if self.family == "inet6" else _socket.AF_INET
+                self.server = TServer(self._app, map=self.map, _sock=self.lsock, dispatcher=self.dispatcher, adj=adj,
+                                      sockinfo=(fam, _socket.SOCK_STREAM, None, self.lsock.getsockname()))
             try:
                 next_fd = 7
                 for step in self.steps:
@@ -1186,6 +1245,11 @@ class ListenerWorld(FaultWorld):
                         exps.append((labels, {f: self._chan_state(f) for f in self.socks}, ("serve", self.srv_state())))
                 self.final = {"srv": self.srv_state(), "map": sorted(str(k) for k in self.map)}
             finally:
+                if self.logging_on:
+                    wlog.removeHandler(handler)
+                    wlog.propagate, _lvl = saved_log[1], saved_log[2]
+                    wlog.setLevel(_lvl)
+                    logging.disable(saved_log[0])
                 try:
                     self.server.trigger.close()
                 except Exception:
@@ -1345,42 +1409,67 @@ def _expr_tokens(e):
     return out
 
 
-def _stmt_tokens(stmts, out, depth=0):
+class _StrBlind(ast.NodeTransformer):
+    def visit_Constant(self, n):
+        return ast.copy_location(ast.Constant("S"), n) if isinstance(n.value, str) else n
+
+
+def _norm_src(node):
+    """the source of an expression / simple statement with every string literal replaced by 'S'"""
+    import copy
+    return ast.unparse(_StrBlind().visit(copy.deepcopy(node)))
+
+
+def _stmt_tokens(stmts, out, depth=0, hd=False):
+    """hd: the statements are (inside) the body of an `except` handler or a `finally` of a modelled method.  There the
+    watched-name abstraction is not enough: whatever is evaluated while an exception is being handled can itself raise
+    and escape the ladder that was meant to contain the fault (a `"%s:%d" % addr` in a log call is enough), and the
+    model has no instruction for it.  So inside handlers every statement is recorded in full ("h:" + its source, string
+    literals blinded): any new operator, call, name or subscript there changes the signature."""
     for st in stmts:
         if isinstance(st, ast.Expr) and isinstance(st.value, ast.Constant) and isinstance(st.value.value, str):
             continue   # docstring
+        if hd:
+            if isinstance(st, (ast.If, ast.While)):
+                out.append("h:" + type(st).__name__.lower() + " " + _norm_src(st.test))
+            elif isinstance(st, ast.For):
+                out.append("h:for " + _norm_src(st.target) + " in " + _norm_src(st.iter))
+            elif isinstance(st, ast.With):
+                out.append("h:with " + ",".join(_norm_src(i) for i in st.items))
+            elif not isinstance(st, ast.Try):
+                out.append("h:" + _norm_src(st))
         if isinstance(st, ast.With):
             items = [ast.unparse(i.context_expr) for i in st.items]
             out.append("with(%s){" % ",".join(items))
-            _stmt_tokens(st.body, out, depth + 1)
+            _stmt_tokens(st.body, out, depth + 1, hd)
             out.append("}")
         elif isinstance(st, ast.Try):
             out.append("try{")
-            _stmt_tokens(st.body, out, depth + 1)
+            _stmt_tokens(st.body, out, depth + 1, hd)
             for h in st.handlers:
                 out.append("}except(%s){" % (ast.unparse(h.type) if h.type is not None else "*"))
-                _stmt_tokens(h.body, out, depth + 1)
+                _stmt_tokens(h.body, out, depth + 1, True)
             if st.orelse:
                 out.append("}else{")
-                _stmt_tokens(st.orelse, out, depth + 1)
+                _stmt_tokens(st.orelse, out, depth + 1, hd)
             if st.finalbody:
                 out.append("}finally{")
-                _stmt_tokens(st.finalbody, out, depth + 1)
+                _stmt_tokens(st.finalbody, out, depth + 1, True)
             out.append("}")
         elif isinstance(st, ast.If):
             out.append("if(%s){" % " ".join(_expr_tokens(st.test)))
-            _stmt_tokens(st.body, out, depth + 1)
+            _stmt_tokens(st.body, out, depth + 1, hd)
             if st.orelse:
                 out.append("}else{")
-                _stmt_tokens(st.orelse, out, depth + 1)
+                _stmt_tokens(st.orelse, out, depth + 1, hd)
             out.append("}")
         elif isinstance(st, (ast.While, ast.For)):
             head = _expr_tokens(st.test) if isinstance(st, ast.While) else _expr_tokens(st.iter)
             out.append("%s(%s){" % ("while" if isinstance(st, ast.While) else "for", " ".join(head)))
-            _stmt_tokens(st.body, out, depth + 1)
+            _stmt_tokens(st.body, out, depth + 1, hd)
             if st.orelse:
                 out.append("}else{")
-                _stmt_tokens(st.orelse, out, depth + 1)
+                _stmt_tokens(st.orelse, out, depth + 1, hd)
             out.append("}")
         elif isinstance(st, ast.Raise):
             out.append("raise(%s)" % (" ".join(_expr_tokens(st.exc)) if st.exc is not None else ""))
@@ -1526,17 +1615,28 @@ def detect_wc_close(src_dir):
 # the signature of the modelled methods on the tree the model was written against (see shape_signature;
 # /repo at 48f7fa0 (frozen), i.e. with all the repairs of the rounds up to /verif/_work/FINAL_ROUND.md); the instructions of Model/ChanFault.v
 # transliterate exactly these statements
-EXPECTED_SHAPE = {'channel.py:HTTPChannel.__init__': ['w:outbufs', 'w:sendbuf_len call:getsockopt()', 'n:map call:__init__()', 'w:connected const:True', 'w:requests'],
+EXPECTED_SHAPE = {'channel.py:HTTPChannel.__init__': ['w:outbufs',
+                                     'w:sendbuf_len call:getsockopt()',
+                                     'n:map call:__init__()',
+                                     'w:connected const:True',
+                                     'w:requests'],
  'channel.py:HTTPChannel._flush_exception': ['if(){',
                                              'try{',
                                              'return(call:flush(do_close=do_close) const:False)',
                                              '}except(OSError){',
+                                             'h:if self.adj.log_socket_errors',
                                              'if(){',
+                                             "h:self.logger.exception('S')",
                                              '}',
+                                             'h:self.will_close = True',
                                              'w:will_close const:True',
+                                             'h:return (False, True)',
                                              'return(const:False const:True)',
                                              '}except(Exception){',
+                                             "h:self.logger.exception('S')",
+                                             'h:self.will_close = True',
                                              'w:will_close const:True',
+                                             'h:return (False, True)',
                                              'return(const:False const:True)',
                                              '}',
                                              '}',
@@ -1546,13 +1646,15 @@ EXPECTED_SHAPE = {'channel.py:HTTPChannel.__init__': ['w:outbufs', 'w:sendbuf_le
                                                                 'if(not r:connected){',
                                                                 'return()',
                                                                 '}',
-                                                                'r:_flush_some const:False call:_flush_exception(do_close=False)',
+                                                                'r:_flush_some const:False '
+                                                                'call:_flush_exception(do_close=False)',
                                                                 'if(){',
                                                                 'call:pull_trigger()',
                                                                 'call:wait()',
                                                                 'return()',
                                                                 '}',
-                                                                'while(bool:And r:connected r:total_outbufs_len cmp:Gt){',
+                                                                'while(bool:And r:connected r:total_outbufs_len '
+                                                                'cmp:Gt){',
                                                                 'call:pull_trigger()',
                                                                 'call:wait()',
                                                                 '}',
@@ -1577,6 +1679,7 @@ EXPECTED_SHAPE = {'channel.py:HTTPChannel.__init__': ['w:outbufs', 'w:sendbuf_le
                                         'try{',
                                         'call:close()',
                                         '}except(Exception){',
+                                        "h:self.logger.exception('S')",
                                         '}',
                                         '}else{',
                                         'const:True',
@@ -1597,6 +1700,7 @@ EXPECTED_SHAPE = {'channel.py:HTTPChannel.__init__': ['w:outbufs', 'w:sendbuf_le
                                                     'call:notify()',
                                                     '}',
                                                     '}finally{',
+                                                    'h:self.outbuf_lock.release()',
                                                     'call:release()',
                                                     '}',
                                                     '}'],
@@ -1612,6 +1716,7 @@ EXPECTED_SHAPE = {'channel.py:HTTPChannel.__init__': ['w:outbufs', 'w:sendbuf_le
                                          'try{',
                                          'call:close()',
                                          '}except(Exception){',
+                                         "h:self.logger.exception('S')",
                                          '}',
                                          '}',
                                          'w:total_outbufs_len',
@@ -1622,9 +1727,13 @@ EXPECTED_SHAPE = {'channel.py:HTTPChannel.__init__': ['w:outbufs', 'w:sendbuf_le
  'channel.py:HTTPChannel.handle_read': ['try{',
                                         'call:recv()',
                                         '}except(OSError){',
+                                        'h:if self.adj.log_socket_errors',
                                         'if(){',
+                                        "h:self.logger.exception('S')",
                                         '}',
+                                        'h:self.handle_close()',
                                         'call:handle_close()',
+                                        'h:return',
                                         'return()',
                                         '}',
                                         'if(){',
@@ -1649,7 +1758,8 @@ EXPECTED_SHAPE = {'channel.py:HTTPChannel.__init__': ['w:outbufs', 'w:sendbuf_le
                                          'if(r:will_close){',
                                          'call:handle_close()',
                                          '}'],
- 'channel.py:HTTPChannel.readable': ['return(not bool:Or r:will_close r:close_when_flushed r:requests cmp:Gt r:total_outbufs_len)'],
+ 'channel.py:HTTPChannel.readable': ['return(not bool:Or r:will_close r:close_when_flushed r:requests cmp:Gt '
+                                     'r:total_outbufs_len)'],
  'channel.py:HTTPChannel.received': ['if(not){',
                                      'return(const:False)',
                                      '}',
@@ -1662,7 +1772,8 @@ EXPECTED_SHAPE = {'channel.py:HTTPChannel.__init__': ['w:outbufs', 'w:sendbuf_le
                                      'w:request',
                                      '}',
                                      'r:request call:received()',
-                                     'if(bool:And r:request r:expect_continue r:request r:headers_finished not r:requests not r:sent_continue){',
+                                     'if(bool:And r:request r:expect_continue r:request r:headers_finished not '
+                                     'r:requests not r:sent_continue){',
                                      'call:send_continue()',
                                      '}',
                                      'if(r:request r:completed){',
@@ -1701,26 +1812,45 @@ EXPECTED_SHAPE = {'channel.py:HTTPChannel.__init__': ['w:outbufs', 'w:sendbuf_le
                                     'w:close_on_finish const:True',
                                     '}',
                                     '}except(ClientDisconnected){',
+                                    "h:self.logger.info('S' % task.request.path)",
                                     'r:request',
+                                    'h:task.close_on_finish = True',
                                     'w:close_on_finish const:True',
                                     '}except(BaseException){',
+                                    "h:self.logger.exception('S' % task.request.path)",
                                     'r:request',
+                                    'h:if not task.wrote_header',
                                     'if(not){',
+                                    'h:if self.adj.expose_tracebacks',
                                     'if(){',
+                                    'h:body = traceback.format_exc()',
                                     '}else{',
+                                    "h:body = 'S'",
                                     '}',
+                                    'h:req_version = request.version',
+                                    'h:req_headers = request.headers',
+                                    'h:err_request = self.parser_class(self.adj)',
+                                    'h:err_request.error = InternalServerError(body)',
                                     'w:error',
+                                    'h:err_request.version = req_version',
+                                    "h:err_request.command = getattr(request, 'S', None)",
                                     'const:None',
                                     'try{',
+                                    "h:err_request.headers['S'] = req_headers['S']",
                                     '}except(KeyError){',
+                                    'h:pass',
                                     'pass',
                                     '}',
+                                    'h:task = self.error_task_class(self, err_request)',
                                     'try{',
+                                    'h:task.service()',
                                     'call:service()',
                                     '}except(ClientDisconnected){',
+                                    'h:task.close_on_finish = True',
                                     'w:close_on_finish const:True',
                                     '}',
                                     '}else{',
+                                    'h:task.close_on_finish = True',
                                     'w:close_on_finish const:True',
                                     '}',
                                     '}',
@@ -1745,8 +1875,8 @@ EXPECTED_SHAPE = {'channel.py:HTTPChannel.__init__': ['w:outbufs', 'w:sendbuf_le
                                     'if(bool:And r:connected r:requests){',
                                     'call:add_task()',
                                     '}else{',
-                                    'if(bool:And r:connected r:request cmp:IsNot const:None r:request r:expect_continue r:request r:headers_finished '
-                                    'not r:sent_continue){',
+                                    'if(bool:And r:connected r:request cmp:IsNot const:None r:request '
+                                    'r:expect_continue r:request r:headers_finished not r:sent_continue){',
                                     'const:False call:send_continue(do_close=False)',
                                     '}',
                                     '}',
@@ -1796,26 +1926,37 @@ EXPECTED_SHAPE = {'channel.py:HTTPChannel.__init__': ['w:outbufs', 'w:sendbuf_le
                                             '}',
                                             'call:set_socket_options()',
                                             '}except(OSError){',
+                                            'h:if self.adj.log_socket_errors',
                                             'if(){',
+                                            "h:self.logger.warning('S', exc_info=True)",
                                             'const:True',
                                             '}',
+                                            'h:return',
                                             'return()',
                                             '}',
                                             'call:fix_addr()',
                                             'try{',
                                             'r:_map call:channel_class()',
                                             '}except(OSError){',
+                                            'h:if self.adj.log_socket_errors',
                                             'if(){',
+                                            "h:self.logger.warning('S', exc_info=True)",
                                             'const:True',
                                             '}',
                                             'try{',
+                                            'h:conn.close()',
                                             'call:close()',
                                             '}except(OSError){',
+                                            'h:pass',
                                             'pass',
                                             '}',
                                             '}'],
  'server.py:BaseWSGIServer.handle_read': ['pass'],
- 'server.py:BaseWSGIServer.run': ['try{', 'r:_map', '}except((SystemExit, KeyboardInterrupt)){', '}'],
+ 'server.py:BaseWSGIServer.run': ['try{',
+                                  'r:_map',
+                                  '}except((SystemExit, KeyboardInterrupt)){',
+                                  'h:self.task_dispatcher.shutdown()',
+                                  '}'],
  'server.py:BaseWSGIServer.writable': ['return(const:False)'],
  'task.py:ThreadedTaskDispatcher.handler_thread': ['while(const:True){',
                                                    'with(self.lock){',
@@ -1830,6 +1971,7 @@ EXPECTED_SHAPE = {'channel.py:HTTPChannel.__init__': ['w:outbufs', 'w:sendbuf_le
                                                    'try{',
                                                    'call:service()',
                                                    '}except(BaseException){',
+                                                   "h:self.logger.exception('S', task)",
                                                    '}',
                                                    '}'],
  'trigger.py:_triggerbase.close': ['if(not){', 'const:True', 'call:del_channel()', '}'],
@@ -1837,20 +1979,25 @@ EXPECTED_SHAPE = {'channel.py:HTTPChannel.__init__': ['w:outbufs', 'w:sendbuf_le
  'trigger.py:_triggerbase.handle_read': ['try{',
                                          'call:recv()',
                                          '}except(OSError){',
+                                         'h:return',
                                          'return()',
                                          '}',
                                          'with(self.lock){',
                                          'for(){',
                                          'try{',
                                          '}except(*){',
+                                         'h:nil, t, v, tbinfo = wasyncore.compact_traceback()',
+                                         "h:self.log_info(f'S{t}S{v}S{tbinfo}S')",
                                          '}',
                                          '}',
                                          '}'],
  'wasyncore.py:._exception': ['try{',
                               'call:handle_expt_event()',
                               '}except(_reraised_exceptions){',
+                              'h:raise',
                               'raise()',
                               '}except(*){',
+                              'h:obj.handle_error()',
                               'call:handle_error()',
                               '}'],
  'wasyncore.py:.loop': ['if(n:map cmp:Is const:None){',
@@ -1890,9 +2037,12 @@ EXPECTED_SHAPE = {'channel.py:HTTPChannel.__init__': ['w:outbufs', 'w:sendbuf_le
                         'try{',
                         'call:select()',
                         '}except(OSError){',
+                        'h:if err.args[0] != EINTR',
                         'if(cmp:NotEq n:EINTR){',
+                        'h:raise',
                         'raise()',
                         '}else{',
+                        'h:return',
                         'return()',
                         '}',
                         '}',
@@ -1937,9 +2087,12 @@ EXPECTED_SHAPE = {'channel.py:HTTPChannel.__init__': ['w:outbufs', 'w:sendbuf_le
                          'try{',
                          'call:poll()',
                          '}except(OSError){',
+                         'h:if err.args[0] != EINTR',
                          'if(cmp:NotEq n:EINTR){',
+                         'h:raise',
                          'raise()',
                          '}',
+                         'h:r = []',
                          '}',
                          'for(){',
                          'n:map n:fd call:get()',
@@ -1949,7 +2102,15 @@ EXPECTED_SHAPE = {'channel.py:HTTPChannel.__init__': ['w:outbufs', 'w:sendbuf_le
                          'call:readwrite()',
                          '}',
                          '}'],
- 'wasyncore.py:.read': ['try{', 'call:handle_read_event()', '}except(_reraised_exceptions){', 'raise()', '}except(*){', 'call:handle_error()', '}'],
+ 'wasyncore.py:.read': ['try{',
+                        'call:handle_read_event()',
+                        '}except(_reraised_exceptions){',
+                        'h:raise',
+                        'raise()',
+                        '}except(*){',
+                        'h:obj.handle_error()',
+                        'call:handle_error()',
+                        '}'],
  'wasyncore.py:.readwrite': ['try{',
                              'if(){',
                              'call:handle_read_event()',
@@ -1964,17 +2125,30 @@ EXPECTED_SHAPE = {'channel.py:HTTPChannel.__init__': ['w:outbufs', 'w:sendbuf_le
                              'call:handle_close()',
                              '}',
                              '}except(OSError){',
+                             'h:if e.args[0] not in _DISCONNECTED',
                              'if(cmp:NotIn n:_DISCONNECTED){',
+                             'h:obj.handle_error()',
                              'call:handle_error()',
                              '}else{',
+                             'h:obj.handle_close()',
                              'call:handle_close()',
                              '}',
                              '}except(_reraised_exceptions){',
+                             'h:raise',
                              'raise()',
                              '}except(*){',
+                             'h:obj.handle_error()',
                              'call:handle_error()',
                              '}'],
- 'wasyncore.py:.write': ['try{', 'call:handle_write_event()', '}except(_reraised_exceptions){', 'raise()', '}except(*){', 'call:handle_error()', '}'],
+ 'wasyncore.py:.write': ['try{',
+                         'call:handle_write_event()',
+                         '}except(_reraised_exceptions){',
+                         'h:raise',
+                         'raise()',
+                         '}except(*){',
+                         'h:obj.handle_error()',
+                         'call:handle_error()',
+                         '}'],
  'wasyncore.py:_DISCONNECTED': ['EBADF', 'ECONNABORTED', 'ECONNRESET', 'ENOTCONN', 'EPIPE', 'ESHUTDOWN'],
  'wasyncore.py:_reraised_exceptions': ['ExitNow', 'KeyboardInterrupt', 'SystemExit'],
  'wasyncore.py:dispatcher.__init__': ['if(n:map cmp:Is const:None){',
@@ -1992,11 +2166,15 @@ EXPECTED_SHAPE = {'channel.py:HTTPChannel.__init__': ['w:outbufs', 'w:sendbuf_le
  'wasyncore.py:dispatcher.accept': ['try{',
                                     'r:socket call:accept()',
                                     '}except(TypeError){',
+                                    'h:return None',
                                     'return(const:None)',
                                     '}except(OSError){',
+                                    'h:if why.args[0] in (EWOULDBLOCK, ECONNABORTED, EAGAIN)',
                                     'if(cmp:In n:EWOULDBLOCK n:ECONNABORTED n:EAGAIN){',
+                                    'h:return None',
                                     'return(const:None)',
                                     '}else{',
+                                    'h:raise',
                                     'raise()',
                                     '}',
                                     '}else{',
@@ -2011,7 +2189,9 @@ EXPECTED_SHAPE = {'channel.py:HTTPChannel.__init__': ['w:outbufs', 'w:sendbuf_le
                                    'try{',
                                    'r:socket call:close()',
                                    '}except(OSError){',
+                                   'h:if why.args[0] not in (ENOTCONN, EBADF)',
                                    'if(cmp:NotIn n:ENOTCONN n:EBADF){',
+                                   'h:raise',
                                    'raise()',
                                    '}',
                                    '}',
@@ -2026,7 +2206,11 @@ EXPECTED_SHAPE = {'channel.py:HTTPChannel.__init__': ['w:outbufs', 'w:sendbuf_le
                                          '}',
                                          'w:_fileno const:None'],
  'wasyncore.py:dispatcher.handle_close': ['call:close()'],
- 'wasyncore.py:dispatcher.handle_error': ['try{', '}except(*){', '}', 'call:handle_close()'],
+ 'wasyncore.py:dispatcher.handle_error': ['try{',
+                                          '}except(*){',
+                                          "h:self_repr = 'S' % id(self)",
+                                          '}',
+                                          'call:handle_close()'],
  'wasyncore.py:dispatcher.handle_expt_event': ['r:socket cmp:IsNot const:None r:socket call:getsockopt()',
                                                'if(cmp:NotEq){',
                                                'call:handle_close()',
@@ -2063,10 +2247,14 @@ EXPECTED_SHAPE = {'channel.py:HTTPChannel.__init__': ['w:outbufs', 'w:sendbuf_le
                                   'return()',
                                   '}',
                                   '}except(OSError){',
+                                  'h:if why.args[0] in _DISCONNECTED',
                                   'if(cmp:In n:_DISCONNECTED){',
+                                  'h:self.handle_close()',
                                   'call:handle_close()',
+                                  "h:return b''",
                                   "return(const:b'')",
                                   '}else{',
+                                  'h:raise',
                                   'raise()',
                                   '}',
                                   '}'],
@@ -2074,15 +2262,22 @@ EXPECTED_SHAPE = {'channel.py:HTTPChannel.__init__': ['w:outbufs', 'w:sendbuf_le
                                   'r:socket call:send()',
                                   'return()',
                                   '}except(OSError){',
+                                  'h:if why.args[0] == EWOULDBLOCK',
                                   'if(cmp:Eq n:EWOULDBLOCK){',
+                                  'h:return 0',
                                   'return()',
                                   '}else{',
+                                  'h:if why.args[0] in _DISCONNECTED',
                                   'if(cmp:In n:_DISCONNECTED){',
+                                  'h:if do_close',
                                   'if(){',
+                                  'h:self.handle_close()',
                                   'call:handle_close()',
                                   '}',
+                                  'h:return 0',
                                   'return()',
                                   '}else{',
+                                  'h:raise',
                                   'raise()',
                                   '}',
                                   '}',
@@ -2132,6 +2327,7 @@ SCENARIOS = {
     "app-raises": {"scripts": {7: [["send", GET.hex()], ["wait_wire", 60], ["close"]]}, "raises": ["/a"]},
     "oob": {"scripts": {7: [["send", GET.hex()], ["oob"], ["wait_wire", 60], ["close"]]}},
     "hup": {"scripts": {7: [["send", GET.hex()], ["wait_wire", 60], ["hup"]]}, "use_poll": True},
+    "worker-flush": {"scripts": {7: [["send", (GET + GET2).hex()], ["wait_wire", 150], ["close"]]}, "adj": {"send_bytes": 1}},
     "two-conns": {"scripts": {7: [["send", (GET + POSTH).hex()], ["wait_wire", 100], ["close"]],
                               8: [["send", GET.hex()], ["send", GET2.hex()], ["wait_wire", 190], ["close"]]}},
     "two-conns-b": {"scripts": {7: [["send", GET.hex()], ["wait_wire", 60], ["close"]],
@@ -2263,8 +2459,14 @@ def apply_placements(case, pls):
     return c
 
 
-def listener_monitor(world, exps):
+def listener_monitor(world, exps, must_serve=()):
+    """must_serve: descriptors of connections that were set up without a fault, sent a GET and were served: they
+    must have received a complete 200 response (the listener went on accepting and the loop went on polling)"""
     problems = []
+    for fd in must_serve:
+        sk = world.socks.get(fd)
+        if sk is None or fd not in world.channels or not sk.wire.startswith(b"HTTP/1.1 200"):
+            problems.append(("next_client_not_served", (fd, None if sk is None else bytes(sk.wire[:20]))))
     setup_fault = any(e[1] == "setup_ans" and e[2][1] in ("getsockopt", "setblocking") and e[2][2] != "c0"
                       for e in world.sched.events)
     for (_, _, (what, srv)) in exps:
